@@ -281,13 +281,43 @@ def all_sites(modinfo, allow_self_rebind=True, self_rebind_in=None):
     return out
 
 
+import re as _re
+
+
+def normalise(shape):
+    """[K] and [*] are the same cell for a frame (which key of a dict, which entry of a list); [:] (all entries) is kept"""
+    return _re.sub(r"\[(K|\*)\]", "[_]", shape)
+
+
+def closure(shapes):
+    """a helper may be handed a sub-object instead of the object itself (`_mark(assembly.annotations)` writing `P[K]` for
+    `P.annotations[K]`): every allowed path also allows its suffixes re-rooted at a parameter"""
+    out = set()
+    for sh in shapes:
+        sh = normalise(sh)
+        out.add(sh)
+        prefix = ""
+        body = sh
+        for pre in ("call:", "del:"):
+            if body.startswith(pre):
+                prefix, body = pre, body[len(pre):]
+        root = _re.match(r"(self|cls|P|L|\?|E|FRESH|G:[A-Za-z_0-9]+)", body)
+        if not root or root.group(1) != "P":
+            continue
+        comps = _re.findall(r"\.[A-Za-z_0-9]+|\[[^\]]*\]", body[len("P"):])
+        for k in range(1, len(comps)):             # (the last component -- the cell, or the method of a call -- stays)
+            out.add(prefix + "P" + "".join(comps[k:]))
+    return out
+
+
 def check_frame(modinfo, rel, shapes=(), roots=None, allow_self_rebind=True, self_rebind_in=None):
     """the stores of the file that are outside the frame.
     shapes: allowed path shapes of the file;  roots: when given, only stores whose root is in this set are of
     interest (e.g. {'cls', 'G'} for shared state; 'G' stands for every module-level name)."""
     bad = []
+    allowed = closure(shapes)
     for (qual, s) in all_sites(modinfo, allow_self_rebind, self_rebind_in):
-        if s.shape in shapes:
+        if normalise(s.shape) in allowed:
             continue
         r = "G" if s.root.startswith("G:") else s.root
         if roots is not None and r not in roots:
